@@ -99,6 +99,23 @@ class Hist:
             self.checks += 1
             obs = diag_keys(self.server.last_diagnostics(uri_for(self.paths[k])))
             exp = self.expected(k)
+            # independent of the reference (which runs the same build): no spelling diagnostic may sit
+            # exactly on a word that has been added to a dictionary in force for this document
+            added_now = self.user + self.filew[k]
+            for (sl, sc, el, ec, msg) in obs:
+                if not msg.startswith("Did you mean"):
+                    continue
+                a = client.position_to_index(self.text[k], sl, sc)
+                b = client.position_to_index(self.text[k], el, ec)
+                if a is None or b is None:
+                    continue
+                flagged = self.text[k][a:b]
+                if flagged in added_now:
+                    twin = any(fold(x) == fold(flagged) and x != flagged for x in added_now)
+                    if twin:
+                        self.finding("added-word-flagged@case-variant-added-too", "%r flagged in %s after %s: another capitalisation of it was added as well" % (flagged, k, why))
+                    else:
+                        self.finding("added-word-flagged", "the added word %r is reported as misspelt in %s after %s (%s)" % (flagged, k, why, msg))
             if obs != exp:
                 extra = [d for d in obs if d not in exp]
                 missing = [d for d in exp if d not in obs]
@@ -178,6 +195,10 @@ class Hist:
                     t = "".join("// %s\n" % line for line in t.split("\n") if line) + "".join("fn %s() {}\n" % i for i in ids)
                 if self.big and len(self.user) > 10:
                     t += " " + " ".join(rng.sample(self.user[2:], 6)) + "."
+                # words added earlier show up again in later texts (they must stay accepted)
+                added = [w for w in self.user + self.filew.get(k, []) if w in WORDS]
+                if added and rng.random() < 0.8:
+                    t += " We saw a %s and a %s here." % (rng.choice(added), rng.choice(added))
                 self.trace.append({"op": "lint", "doc": k, "text": t})
                 self.set_text(k, t)
             else:
